@@ -210,13 +210,16 @@ const timestampTolerance = 180 * time.Second
 
 const replayCacheAgeLimit = 12 * time.Hour
 
-// UsedRandomCleaner clears the cache of used random fields every replayCacheAgeLimit
+// UsedRandomCleaner clears the cache of used random fields every replayCacheAgeLimit.
+// An entry registered at time t belongs to a packet whose timestamp lies within
+// timestampTolerance of t, so that packet stays acceptable until t + 2*timestampTolerance:
+// only entries older than that may be forgotten.
 func (sta *State) UsedRandomCleaner() {
 	for {
 		time.Sleep(replayCacheAgeLimit)
 		sta.usedRandomM.Lock()
 		for key, t := range sta.UsedRandom {
-			if time.Unix(t, 0).Before(sta.WorldState.Now().Add(timestampTolerance)) {
+			if time.Unix(t, 0).Add(2 * timestampTolerance).Before(sta.WorldState.Now()) {
 				delete(sta.UsedRandom, key)
 			}
 		}
